@@ -357,6 +357,13 @@ def bind_rule(cx, rid_bind="C08-BIND", rid_map="C08-MAP", only=None, floor=300):
                     shapes_total += 1
                     pending.append((cls, hcls, hfn, shape, params, f2p, rx, arm, hm, fn))
                     tasks.append((cls, hcls, hfn, posable, shape.npos, tuple(sorted(shape.kws)), order, zeros))
+                # the same shape with an explicit None for every supplied parameter whose host default is None: Python binds
+                # None exactly as if the parameter were omitted, so the call is refused or yields the node of the omitted form
+                nones = frozenset(p_[0] for p_ in params if p_[0] in supplied and p_[2] is not None and lit.try_ev(p_[2], default="<nonliteral>") is None and p_[0] not in HOST_ONLY)
+                if nones and not cls.endswith("Decl"):
+                    shapes_total += 1
+                    pending.append((cls, hcls, hfn, shape, params, f2p, rx, arm, hm, fn))
+                    tasks.append((cls, hcls, hfn, posable, shape.npos, tuple(sorted(shape.kws)), order, nones | {"__none__"}))
     from .. import bindeval
     results = bindeval.evaluate(tasks)
     for (cls, hcls, hfn, shape, params, f2p, rx, arm, hm, fn), (kind, val, desc, src) in zip(pending, results):
@@ -378,7 +385,10 @@ def bind_rule(cx, rid_bind="C08-BIND", rid_map="C08-MAP", only=None, floor=300):
                 continue
             got = val[f]
             want = exp[pn]
-            if isinstance(want, Tok):
+            if isinstance(want, Tok) and desc.get(pn) == ("none", None):
+                if got is not None:
+                    bad = (f, pn, got, f"None - the explicit `None` written for {pn} in `{call_txt}` is the host default, the call means what the call without it means", "explicit-none")
+            elif isinstance(want, Tok):
                 if pn not in desc or not bindeval.matches(got, desc[pn]):
                     bad = (f, pn, got, f"the argument written for {pn} (`{call_txt}`)", "keyword" if want.kind == "K" else "positional")
             else:
